@@ -122,6 +122,21 @@ func (ex *Exec) noteWrite(obj *Obj, off, n int) {
 	if obj.Global {
 		ex.oblige("frame", "global:"+obj.Name, BoolC(false), "write to package-level variable")
 	}
+	if obj.Pre {
+		// remember every store into memory that existed before the call: a cell outside the modifies set must not be
+		// written at all, not even with a value that is restored before the function returns (C15, C16)
+		if ex.written == nil {
+			ex.written = map[*Obj]map[int]string{}
+		}
+		if ex.written[obj] == nil {
+			ex.written[obj] = map[int]string{}
+		}
+		for i := 0; i < n; i++ {
+			if _, seen := ex.written[obj][off+i]; !seen {
+				ex.written[obj][off+i] = ex.lastWhere
+			}
+		}
+	}
 }
 
 func (ex *Exec) load(obj *Obj, off int, t types.Type) Value {
@@ -324,6 +339,11 @@ func (ex *Exec) evalTerm(e ast.Expr) *Term {
 }
 
 func (ex *Exec) eval(e ast.Expr) Value {
+	if ex.evalOverride != nil {
+		if v, ok := ex.evalOverride[e]; ok {
+			return v
+		}
+	}
 	info := ex.frame().pkg.Info
 	if tv, ok := info.Types[e]; ok && tv.Value != nil {
 		mt := machType(tv.Type)
